@@ -1,7 +1,7 @@
 (* C17 — Every reply is well-formed, and RESP and JSON outputs agree.
    This file holds only the property theorems, each closed by a lemma of Proofs/. *)
 From T38 Require Import Base.Bytes Base.Utf8 Model.Json Model.Templates
-  Proofs.JsonProofs Proofs.JsonTmplProofs Proofs.JsonGenProofs.
+  Model.WsFrame Proofs.JsonProofs Proofs.JsonTmplProofs Proofs.JsonGenProofs Proofs.JsonWsProofs.
 From T38 Require Gen.Templates.
 
 (* jsonString / appendJSONString (fast path and Go's json.Marshal escaping: control bytes, quote,
@@ -72,6 +72,27 @@ Theorem c17_unguarded_float_refuted :
   exists v, inst (Seq (Seq (Lit [123; 34; 111; 107; 34; 58; 116; 114; 117; 101; 44; 34; 100; 34; 58]) HFloat) (Lit [125])) v /\ valid_json v = false.
 Proof. exact unguarded_float_refuted. Qed.
 Print Assumptions c17_unguarded_float_refuted.
+
+(* WebSocket transport wrapping: the frame WriteWebSocketMessage writes for a payload (header
+   transcribed: len <= 125 | len <= 0xFFFF | else) is decoded by a conforming client to exactly
+   that payload, for every payload length a Go slice can have (len is an int: < 2^63). *)
+Theorem c17_ws_frame_roundtrip : forall payload,
+  N.of_nat (length payload) < 2 ^ 63 -> ws_decode (ws_frame payload) = Some payload.
+Proof. exact ws_frame_roundtrip_proof. Qed.
+Print Assumptions c17_ws_frame_roundtrip.
+
+(* the boundaries of the three length forms, and the refutation of the usual off-by-one
+   (first test <= 126): a 126 byte payload is then not decodable *)
+Theorem c17_ws_header_boundaries :
+  ws_header 125 = [129; 125] /\ ws_header 126 = [129; 126; 0; 126] /\
+  ws_header 65535 = [129; 126; 255; 255] /\ ws_header 65536 = [129; 127; 0; 0; 0; 0; 0; 1; 0; 0].
+Proof. exact ws_header_boundaries. Qed.
+Print Assumptions c17_ws_header_boundaries.
+
+Theorem c17_ws_header_off_by_one_refuted :
+  exists p, ws_decode (ws_header_126 (N.of_nat (length p)) ++ p) <> Some p.
+Proof. exact ws_header_126_refuted. Qed.
+Print Assumptions c17_ws_header_off_by_one_refuted.
 
 (* non-vacuity: hole fills exist (a string needing every kind of escape, an integer, a boolean),
    and the regenerated list is not empty *)
